@@ -110,6 +110,47 @@ Theorem C06_check_then_insert_not_linearizable :
 Proof. exact rs_check_then_insert_not_linearizable. Qed.
 Print Assumptions C06_check_then_insert_not_linearizable.
 
+(* Reflective, over today's vhost.go: Muxer.handle looks the route up ONCE and hands the connection to
+   that listener or to nobody.  Whatever happens to the table between look-up and hand-over (the routed
+   listener closing, other routes covering the host), a muxed connection is delivered only to the most
+   specific route registered when it was routed -- the one its credentials were checked against *)
+Theorem C06_muxer_delivers_only_to_routed_listener :
+  forall (P : Type) (same : P -> P -> bool) (hist : list (rt_op P)) (s' : rstate P) h p u x,
+  mx_deliver same (mx_relookup c06_mux_handle) (rt_run hist) s' h p u = Some x ->
+  exists r, rs_best_match (rt_abs (rt_run hist)) h p u = Some r /\ x = rt_pay r.
+Proof.
+  intros P same. exact (rs_mx_delivers_best_match same c06_mux_handle (eq_refl false <: mx_relookup c06_mux_handle = false)).
+Qed.
+Print Assumptions C06_muxer_delivers_only_to_routed_listener.
+
+Theorem C06_muxer_relookup_hands_to_other_route_witness :
+  let s := rt_run [RAdd (hx "612e6578616d706c652e636f6d") [] [] 1; RAdd (hx "2a2e6578616d706c652e636f6d") [] [] 2] in
+  let s' := rt_del s (hx "612e6578616d706c652e636f6d") [] [] in
+  mx_deliver Z.eqb true s s' (hx "612e6578616d706c652e636f6d") [] [] = Some 2 /\
+  mx_deliver Z.eqb false s s' (hx "612e6578616d706c652e636f6d") [] [] = None.
+Proof. exact rs_mx_relookup_hands_to_other_route. Qed.
+Print Assumptions C06_muxer_relookup_hands_to_other_route_witness.
+
+(* Reflective, over today's server/proxy/https.go: HTTPSProxy.Run tracks a listener only after Listen
+   succeeded.  A Run that is refused (one of its hosts is owned by another proxy) leaves the route set
+   exactly as it was, for every history and every list of custom domains: the owner keeps its route,
+   the refused proxy leaves nothing behind (so a retry is refused again) *)
+Theorem C06_refused_https_run_leaves_routes_unchanged :
+  forall (P : Type) (pay : P) (hist : list (rt_op P)) doms s',
+  px_run (px_track_first c06_https_run) (rt_run hist) doms pay [] = (s', false) ->
+  rp_wf s' /\ forall r, In r (rt_abs s') <-> In r (rt_abs (rt_run hist)).
+Proof.
+  intros P pay. exact (rs_px_run_refused_unchanged pay c06_https_run (eq_refl false <: px_track_first c06_https_run = false)).
+Qed.
+Print Assumptions C06_refused_https_run_leaves_routes_unchanged.
+
+Theorem C06_track_before_error_check_deletes_owner_route_witness :
+  let s := rt_run [RAdd (hx "612e6578616d706c652e636f6d") [] [] 1] in
+  rt_abs (fst (px_run true s [hx "412e6578616d706c652e636f6d"] 2 [])) = [] /\
+  rt_abs (fst (px_run false s [hx "412e6578616d706c652e636f6d"] 2 [])) = rt_abs s.
+Proof. exact rs_px_track_first_deletes_owner_route. Qed.
+Print Assumptions C06_track_before_error_check_deletes_owner_route_witness.
+
 (* "most specific" spelled out: the selected route matches, and every other matching registered
    route is strictly less specific in the order (domain, user, location) *)
 Theorem C06_most_specific : forall (P : Type) (hist : list (rt_op P)) h p u r,
@@ -419,7 +460,7 @@ Example C06_example_overtaken_requests :
    end) /\
   (match hp_run hq_window_history with
    | Some st => hp_idle st = [] /\ hp_busy st = [] /\
-                hp_step st (HBegin 2 0 0 h (hx "2f") [] false) = None /\
+                option_map snd (hp_step st (HBegin 2 0 0 h (hx "2f") [] false)) = Some HNotFound /\
                 option_map snd (hp_step st (HBegin 2 0 0 h (hx "2f") [] true)) = Some HNotFound
    | None => False
    end).
